@@ -82,8 +82,10 @@ def _write(tmp, systems):
 REACTIONS = {
     "r0": (2, {"structs": ["A", "B"], "counts": [1, -1], "energy": 12.0}),
     "r1": (0, {"structs": ["C"], "counts": [1], "energy": 0.0, "noise": 0.05}),
-    "r2": (2, {"structs": ["D", "A", "C"], "counts": [2, -1, -1], "energy": -30.0, "unit": 0.0015936, "noise_factor": 1.5, "weight": 2.0}),
-    "r3": (0, {"structs": [("B", ("O", 0)), "D"], "counts": [1.0, 0.5], "energy": 0.0, "noise": 0.04}),
+    # r2 lists system A twice and r3 lists the same orbital-derivative entry twice (a dimer minus two monomers is written
+    # that way): the stoichiometric counts of repeated entries add up
+    "r2": (2, {"structs": ["D", "A", "C", "A"], "counts": [2, -0.25, -1, -0.75], "energy": -30.0, "unit": 0.0015936, "noise_factor": 1.5, "weight": 2.0}),
+    "r3": (0, {"structs": [("B", ("O", 0)), "D", ("B", ("O", 0))], "counts": [0.6, 0.5, 0.4], "energy": 0.0, "noise": 0.04}),
 }
 CONFIGS = ["x-sep", "x-sep-reduced", "x+c", "pol", "x-npol"]
 
